@@ -189,7 +189,12 @@ func checkLin(ctx *pbt.Ctx, c LinCase) error {
 	old := runtime.GOMAXPROCS(c.Procs)
 	defer runtime.GOMAXPROCS(old)
 	var bt8 beat
-	for round := 0; round < c.Rounds; round++ {
+	// the spinning reader costs a whole P: under GOMAXPROCS 2 it is left out, and with it the rounds are capped
+	rounds, busyOn := c.Rounds, c.Busy && c.Procs >= 4
+	if busyOn && rounds > 400 {
+		rounds = 400
+	}
+	for round := 0; round < rounds; round++ {
 		w := newLinWorld()
 		res := make([]string, len(c.Ops))
 		var ready, gate, stop int32
@@ -207,7 +212,7 @@ func checkLin(ctx *pbt.Ctx, c LinCase) error {
 			}(i)
 		}
 		var busy sync.WaitGroup
-		if c.Busy {
+		if busyOn {
 			busy.Add(1)
 			go func() {
 				defer busy.Done()
